@@ -707,6 +707,63 @@ def run_colidx(ctx) -> RuleResult:
                                     f"the column index is looked up in the names of '{_txt(idx_src)[:70]}' but "
                                     f"applied to the exponent columns of '{_txt(base)[:70]}': with different name "
                                     f"tuples another variable (or none) is addressed", derivation=describe_path(path)))
+    # compositional form: the index comes from a same-module helper.  (1) inside a helper, X.names.index(...) is taken
+    # from one of the helper's own parameters; (2) at the call site the polynomial handed to the helper is the one whose
+    # exponent columns are then indexed
+    for module, qual, func in ctx.repo.analysed_functions():
+        if module.is_pyx:
+            continue
+        params = [a.arg for a in func.args.posonlyargs + func.args.args]
+        for node in ast.walk(func):
+            if isinstance(node, ast.Call) and isinstance(node.func, ast.Attribute) and node.func.attr == "index" \
+                    and isinstance(node.func.value, ast.Attribute) and node.func.value.attr == "names" \
+                    and isinstance(node.func.value.value, ast.Name) and node.func.value.value.id in params \
+                    and any(isinstance(p2, ast.Return) and any(n2 is node for n2 in ast.walk(p2)) for p2 in ast.walk(func)):
+                helper_param = node.func.value.value.id
+                n += 1
+                result.ob(f"{module.name}.{qual}: returns a column index of its parameter '{helper_param}'", True,
+                          module.loc(node), "")
+    for module, qual, func in ctx.repo.analysed_functions():
+        if module.is_pyx or ".exponents" not in ast.unparse(func):
+            continue
+        seen = set()
+        for path in ctx.paths_auto(module, func):
+            for step in path:
+                for raw in step_exprs(step):
+                    for sub in ast.walk(raw):
+                        if not isinstance(sub, ast.Subscript) or (id(sub), id(step.vars)) in seen:
+                            continue
+                        exp = step.expand(sub)
+                        cands = list(exp.slice.elts) if isinstance(exp.slice, ast.Tuple) else [exp.slice]
+                        call = next((c for c in cands if isinstance(c, ast.Call) and isinstance(c.func, ast.Name)
+                                     and c.func.id in module.functions and c.args and "index" in c.func.id), None)
+                        if call is None:
+                            continue
+                        node = exp.value
+                        base = None
+                        for _ in range(6):
+                            if isinstance(node, ast.Attribute) and node.attr == "exponents":
+                                base = node.value
+                                break
+                            if isinstance(node, ast.Subscript):
+                                node = node.value
+                            elif is_S(node) and node.args:
+                                node = node.args[0]
+                            else:
+                                break
+                        if base is None:
+                            continue
+                        seen.add((id(sub), id(step.vars)))
+                        n += 1
+                        ok = _txt(call.args[0]) == _txt(base)
+                        result.ob(f"{module.name}.{qual}: the index helper receives the polynomial whose columns are indexed",
+                                  ok, module.loc(step.orig), f"{_txt(call.args[0])[:60]} vs {_txt(base)[:60]}")
+                        if not ok:
+                            result.add(Finding(
+                                "R-COLIDX", module, qual, sub,
+                                f"the column index is computed by {call.func.id}() for '{_txt(call.args[0])[:60]}' but applied to the "
+                                f"exponent columns of '{_txt(base)[:60]}': with different name tuples another variable (or none) "
+                                f"is addressed", derivation=describe_path(path)))
     result.info["sites"] = n
     if n < 2:
         raise AnalysisError(f"R-COLIDX: only {n} sites found (confirmed in derivative)")
